@@ -570,6 +570,347 @@ theorem openS_slog (m : Method) (s0 : St) (h : (openS c m).2 = some s0) :
 
 end Http
 
+/-! ### no op ever produces a header event -/
+
+def NoHdr (evs : List Ev) : Prop := ∀ e ∈ evs, isHeader e = false
+
+theorem nohdr_nil : NoHdr [] := by intro e h; cases h
+
+theorem nohdr_append (a b : List Ev) (ha : NoHdr a) (hb : NoHdr b) : NoHdr (a ++ b) := by
+  intro e h
+  rcases List.mem_append.1 h with h | h
+  · exact ha e h
+  · exact hb e h
+
+theorem nohdr_cons (x : Ev) (a : List Ev) (hx : isHeader x = false) (ha : NoHdr a) : NoHdr (x :: a) := by
+  intro e h
+  rcases List.mem_cons.1 h with h | h
+  · rw [h]; exact hx
+  · exact ha e h
+
+theorem nohdr_single (x : Ev) (hx : isHeader x = false) : NoHdr [x] := nohdr_cons x [] hx nohdr_nil
+
+theorem errEv_nohdr (e : Exn) : isHeader (errEv e) = false := rfl
+
+theorem lgEv_logs (ls : List Log) : ∀ e ∈ lgEv ls, ∃ l, e = Ev.log l := by
+  intro e h
+  simp only [lgEv, List.mem_map] at h
+  obtain ⟨l, _, hl⟩ := h
+  exact ⟨l, hl.symm⟩
+
+theorem logs_nohdr (evs : List Ev) (h : ∀ e ∈ evs, ∃ l, e = Ev.log l) : NoHdr evs := by
+  intro e he
+  obtain ⟨l, hl⟩ := h e he
+  rw [hl]; rfl
+
+theorem logs_nodata (evs : List Ev) (h : ∀ e ∈ evs, ∃ l, e = Ev.log l) :
+    ∀ e ∈ evs, isData e = false ∧ isHeader e = false := by
+  intro e he
+  obtain ⟨l, hl⟩ := h e he
+  rw [hl]; exact ⟨rfl, rfl⟩
+
+theorem readUntilData_nohdr : ∀ xs : List Item, NoHdr (readUntilData xs).1 := by
+  intro xs
+  induction xs with
+  | nil => exact nohdr_nil
+  | cons x r ih =>
+    cases x with
+    | log l => simp only [readUntilData]; exact nohdr_cons _ _ rfl ih
+    | data b => simp only [readUntilData]; exact nohdr_single _ rfl
+    | err e => simp only [readUntilData]; exact nohdr_single _ rfl
+    | token t => simp only [readUntilData]; exact nohdr_nil
+
+theorem drainAll_nohdr (xs : List Item) : NoHdr (drainAll xs) := logs_nohdr _ (drainAll_logs xs)
+
+theorem trailing_nohdr : ∀ xs : List Item, NoHdr (Http.trailing xs) := by
+  intro xs
+  induction xs with
+  | nil => exact nohdr_nil
+  | cons x r ih =>
+    cases x with
+    | log l => simp only [Http.trailing]; exact nohdr_cons _ _ rfl ih
+    | data b => simp only [Http.trailing]; exact ih
+    | err e => simp only [Http.trailing]; exact nohdr_single _ rfl
+    | token t => simp only [Http.trailing]; exact ih
+
+theorem parseInit_evs_logs : ∀ (xs : List Item) (e : Ev), e ∈ (Http.parseInit xs).evs → ∃ l, e = Ev.log l := by
+  intro xs
+  induction xs with
+  | nil => intro e h; simp [Http.parseInit] at h
+  | cons x r ih =>
+    intro e h
+    cases x with
+    | log l =>
+      simp only [Http.parseInit, List.mem_cons] at h
+      rcases h with h | h
+      · exact ⟨l, h⟩
+      · exact ih e h
+    | data b => simp only [Http.parseInit] at h; exact ih e h
+    | err x => simp [Http.parseInit] at h
+    | token t => simp [Http.parseInit] at h
+
+theorem parseInit_err : ∀ (xs : List Item) (e : Ev), (Http.parseInit xs).err = some e → isHeader e = false := by
+  intro xs
+  induction xs with
+  | nil => intro e h; simp [Http.parseInit] at h
+  | cons x r ih =>
+    intro e h
+    cases x with
+    | log l => simp only [Http.parseInit] at h; exact ih e h
+    | data b => simp only [Http.parseInit] at h; exact ih e h
+    | err x => simp only [Http.parseInit, Option.some.injEq] at h; rw [← h]; rfl
+    | token t => simp [Http.parseInit] at h
+
+section PipeHdr
+open PipeM
+variable (env : Env) (p : Prog)
+
+theorem close_nohdr (s : St) : NoHdr (close s).2 := by
+  unfold close; split
+  · exact nohdr_nil
+  · exact drainAll_nohdr _
+
+theorem cancel_nohdr (s : St) : NoHdr (cancel s).2 := by
+  unfold cancel; split
+  · exact nohdr_nil
+  · exact drainAll_nohdr _
+
+theorem recv_nohdr (s2 : St) (items : List Item) : NoHdr (recv s2 items).2.1 := by
+  have h := readUntilData_nohdr (s2.unread ++ items)
+  unfold recv
+  split <;> rename_i heq <;> rw [heq] at h
+  · exact h
+  · exact nohdr_append _ _ h (close_nohdr _)
+  · exact h
+  · exact h
+
+theorem sendRecv_nohdr (op : String) (s : St) (b : IBatch) : NoHdr (sendRecv env p op s b).2.1 := by
+  unfold sendRecv
+  by_cases hc : s.closed = true
+  · rw [if_pos hc]; exact nohdr_single _ rfl
+  · rw [if_neg hc]
+    by_cases hm : wrongSchema s b = true
+    · rw [if_pos hm]; exact nohdr_single _ rfl
+    · rw [if_neg hm]; exact recv_nohdr _ _
+
+theorem tick_nohdr (s : St) : NoHdr (tick env p s).2.1 := by
+  have h := sendRecv_nohdr env p "tick" s tickBatch
+  unfold tick
+  split
+  · rename_i s' evs heq
+    rw [heq] at h
+    exact nohdr_append _ _ (nohdr_append _ _ h (close_nohdr _)) (nohdr_single _ rfl)
+  · exact h
+
+theorem next_nohdr (s : St) : NoHdr (next env p s).2.1 := by
+  have h := tick_nohdr env p s
+  unfold next
+  split
+  · exact nohdr_single _ rfl
+  · split
+    · rename_i heq; rw [heq] at h; exact h
+    · rename_i heq; rw [heq] at h; exact h
+
+theorem exchange_nohdr (s : St) (b : IBatch) : NoHdr (exchange env p s b).2 := by
+  have h := sendRecv_nohdr env p "exchange" s b
+  unfold exchange
+  split
+  · rename_i heq; rw [heq] at h; exact nohdr_append _ _ h (nohdr_single _ rfl)
+  · rename_i heq; rw [heq] at h; exact h
+
+theorem step_nohdr (s : St) (op : Op) : NoHdr (step env p s op).2 := by
+  cases op with
+  | next => exact next_nohdr env p s
+  | tick => exact tick_nohdr env p s
+  | send b => exact exchange_nohdr env p s b
+  | close => exact close_nohdr s
+  | cancel => exact cancel_nohdr s
+
+theorem run_nohdr (ops : List Op) : ∀ s : St, NoHdr (run env p s ops).2.flatten := by
+  induction ops with
+  | nil => intro s; exact nohdr_nil
+  | cons op r ih =>
+    intro s
+    simp only [run, List.flatten_cons]
+    exact nohdr_append _ _ (step_nohdr env p s op) (ih _)
+
+end PipeHdr
+
+section HttpHdr
+open HttpM
+variable (c : Cfg) (p : Prog)
+
+/-- the buffered error of the init response is an error event -/
+def PerrOk (s : St) : Prop := ∀ e, s.perr = some e → isHeader e = false
+
+theorem readX_nohdr : ∀ xs : List Item, NoHdr (readX xs).1 := by
+  intro xs
+  induction xs with
+  | nil => exact nohdr_nil
+  | cons x r ih =>
+    cases x with
+    | log l => simp only [readX]; exact nohdr_cons _ _ rfl ih
+    | data b =>
+      simp only [readX]
+      split
+      · exact trailing_nohdr r
+      · exact nohdr_append _ _ (trailing_nohdr r) (nohdr_single _ rfl)
+    | err e => simp only [readX]; exact nohdr_single _ rfl
+    | token t => simp only [readX]; exact ih
+
+theorem pull_nohdr (fuel : Nat) (s : St) (items : List Item) : NoHdr (pull c p fuel s items).2.1 := by
+  fun_induction pull c p fuel s items with
+  | case1 => exact nohdr_single _ rfl
+  | case2 f s l r q ih => exact nohdr_cons _ _ rfl ih
+  | case3 => exact nohdr_single _ rfl
+  | case4 => exact nohdr_single _ rfl
+  | case5 => exact nohdr_nil
+  | case6 => exact nohdr_single _ rfl
+  | case7 f s pos tail hchk ih => exact ih
+
+theorem afterPending_nohdr (s : St) (j : Nat) (hp : PerrOk s) : NoHdr (afterPending c p s j).2.1 := by
+  unfold afterPending
+  split
+  · exact nohdr_single _ rfl
+  · unfold afterPendingEnd
+    split
+    · rename_i e he; exact nohdr_single _ (hp e he)
+    · split
+      · exact nohdr_single _ rfl
+      · split
+        · exact nohdr_single _ rfl
+        · exact pull_nohdr c p _ _ _
+
+theorem afterPending_perr (s : St) (j : Nat) (hp : PerrOk s) : PerrOk (afterPending c p s j).1 := by
+  unfold afterPending
+  split
+  · exact hp
+  · unfold afterPendingEnd
+    split
+    · intro e he; cases he
+    · split
+      · exact hp
+      · split
+        · exact hp
+        · intro e he
+          rw [(pull_client c p _ _ _).2.2.1] at he
+          exact hp e he
+
+theorem step_nohdr_http (s : St) (op : Op) (hp : PerrOk s) :
+    NoHdr (step c p s op).2 ∧ PerrOk (step c p s op).1 := by
+  cases op with
+  | next =>
+    simp only [step]
+    unfold next
+    split
+    · exact ⟨nohdr_single _ rfl, hp⟩
+    · exact ⟨afterPending_nohdr c p s 0 hp, afterPending_perr c p s 0 hp⟩
+    · exact ⟨afterPending_nohdr c p s _ hp, afterPending_perr c p s _ hp⟩
+    · refine ⟨pull_nohdr c p _ _ _, ?_⟩
+      intro e he
+      rw [(pull_client c p _ _ _).2.2.1] at he
+      exact hp e he
+  | send b =>
+    simp only [step]
+    unfold send
+    split
+    · exact ⟨nohdr_single _ rfl, hp⟩
+    · rename_i pos _
+      have h := readX_nohdr (serve c p pos b).1
+      split <;> rename_i heq <;> rw [heq] at h
+      · exact ⟨h, hp⟩
+      · refine ⟨?_, hp⟩
+        split
+        · exact h
+        · exact nohdr_append _ _ h (nohdr_single _ rfl)
+  | close => exact ⟨nohdr_nil, hp⟩
+  | cancel =>
+    simp only [step]
+    unfold cancel
+    split
+    · exact ⟨nohdr_nil, hp⟩
+    · exact ⟨nohdr_nil, hp⟩
+
+theorem run_nohdr_http (ops : List Op) : ∀ s : St, PerrOk s → NoHdr (run c p s ops).2.flatten := by
+  induction ops with
+  | nil => intro s _; exact nohdr_nil
+  | cons op r ih =>
+    intro s hp
+    simp only [run, List.flatten_cons]
+    obtain ⟨h1, h2⟩ := step_nohdr_http c p s op hp
+    exact nohdr_append _ _ h1 (ih _ h2)
+
+end HttpHdr
+
+/-! ### what `Sem` delivers, component by component -/
+
+theorem datasOf_lg (ls : List Log) : datasOf (Sem.lg ls) = [] := by
+  induction ls with
+  | nil => rfl
+  | cons l r ih => simp only [Sem.lg, List.map_cons] at ih ⊢; exact ih
+
+theorem restOf_lg (ls : List Log) : restOf (Sem.lg ls) = [] := by
+  induction ls with
+  | nil => rfl
+  | cons l r ih => simp only [Sem.lg, List.map_cons] at ih ⊢; exact ih
+
+theorem restOf_errEv (e : Exn) : restOf [errEv e] = [errEv e] := rfl
+theorem datasOf_errEv (e : Exn) : datasOf [errEv e] = [] := rfl
+theorem datasOf_data (b : Batch) : datasOf [Ev.data b] = [b] := rfl
+theorem restOf_data (b : Batch) : restOf [Ev.data b] = [] := rfl
+theorem datasOf_fin : datasOf [Ev.fin] = [] := rfl
+theorem restOf_fin : restOf [Ev.fin] = [Ev.fin] := rfl
+
+theorem producer_datas (steps : List Step) : datasOf (Sem.producer false steps) = emitted steps := by
+  induction steps with
+  | nil => rfl
+  | cons s r ih =>
+    cases hact : s.act <;>
+      simp [Sem.producer, emitted, hact, Engine.Aux.datasOf_append, datasOf_lg, ih, Sem.failLogs, datasOf_errEv,
+        datasOf_fin]
+
+theorem producer_rest (steps : List Step) : restOf (Sem.producer false steps) = terminal steps := by
+  induction steps with
+  | nil => rfl
+  | cons s r ih =>
+    cases hact : s.act <;>
+      simp [Sem.producer, terminal, hact, Engine.Aux.restOf_append, restOf_lg, ih, Sem.failLogs, restOf_errEv,
+        restOf_fin]
+
+theorem exchange_datas (steps : List Step) : datasOf (Sem.exchange false steps) = exchanged steps := by
+  induction steps with
+  | nil => rfl
+  | cons s r ih =>
+    cases hact : s.act <;>
+      simp [Sem.exchange, exchanged, hact, Engine.Aux.datasOf_append, datasOf_lg, ih, Sem.failLogs, datasOf_errEv]
+
+theorem exchange_rest (steps : List Step) : restOf (Sem.exchange false steps) = exchangeEnd steps := by
+  induction steps with
+  | nil => rfl
+  | cons s r ih =>
+    cases hact : s.act <;>
+      simp [Sem.exchange, exchangeEnd, hact, Engine.Aux.restOf_append, restOf_lg, ih, Sem.failLogs, restOf_errEv]
+
+theorem allEmit_exchanged (steps : List Step) (h : AllEmit steps) :
+    (exchanged steps).length = steps.length ∧ exchangeEnd steps = [] := by
+  induction steps with
+  | nil => exact ⟨rfl, rfl⟩
+  | cons s r ih =>
+    obtain ⟨b, hb⟩ := h s (by simp)
+    have hr : AllEmit r := fun x hx => h x (by simp [hx])
+    simp [exchanged, exchangeEnd, hb, ih hr]
+
+theorem finish_refused (pre : List Step) (s : Step) (post : List Step) (h : AllEmit pre)
+    (hs : s.act = .finish ∨ ∃ b, s.act = .emitFinish b) :
+    (exchanged (pre ++ s :: post)).length = pre.length ∧ exchangeEnd (pre ++ s :: post) = [errEv finishOnExchangeExn] := by
+  induction pre with
+  | nil =>
+    rcases hs with hs | ⟨b, hs⟩ <;> simp [exchanged, exchangeEnd, hs]
+  | cons x r ih =>
+    obtain ⟨b, hb⟩ := h x (by simp)
+    have hr : AllEmit r := fun y hy => h y (by simp [hy])
+    simp [exchanged, exchangeEnd, hb, ih hr]
+
 end Aux
 
 open Aux
@@ -639,6 +980,93 @@ theorem C10_inputs_reach_state_http (c : HttpM.Cfg) (m : Method) (s0 : HttpM.St)
   intro k sch hm
   obtain ⟨k', hk⟩ := initBody_log c m _ hm
   cases hk; rfl
+
+/-! ## Producer and exchange streams consumed to the end (corollaries of the Engine refinement theorems) -/
+
+/-- For every step script, init-log list and — over HTTP — every break-decision function: the data batches the client
+receives are exactly the emitted ones, in order, up to and including the finishing step (emit + finish in one step
+delivers that batch), and the stream ends exactly there: normally, or with the error of the failing step. -/
+theorem C10_producer (brk : Nat → Bool) (il : List Log) (steps : List Step) :
+    datasOf (Pipe.iterate (logItems il) steps) = emitted steps ∧
+    restOf (Pipe.iterate (logItems il) steps) = terminal steps ∧
+    datasOf (Http.iterate brk il steps) = emitted steps ∧
+    restOf (Http.iterate brk il steps) = terminal steps := by
+  have hp := pipe_producer_refines il steps
+  have hh := http_producer_refines brk il steps
+  have d : datasOf (Sem.lg il ++ Sem.producer false steps) = emitted steps := by
+    rw [Engine.Aux.datasOf_append, datasOf_lg, producer_datas]; rfl
+  have r : restOf (Sem.lg il ++ Sem.producer false steps) = terminal steps := by
+    rw [Engine.Aux.restOf_append, restOf_lg, producer_rest]; rfl
+  refine ⟨by rw [hp]; exact d, by rw [hp]; exact r, ?_, ?_⟩
+  · have := congrArg Obs.datas hh; simp only [obs] at this; rw [this]; exact d
+  · have := congrArg Obs.rest hh; simp only [obs] at this; rw [this]; exact r
+
+example : emitted [⟨[], .emit ⟨1, 1, []⟩, []⟩, ⟨[], .emitFinish ⟨2, 1, []⟩, []⟩, ⟨[], .emit ⟨3, 1, []⟩, []⟩]
+    = [⟨1, 1, []⟩, ⟨2, 1, []⟩] := rfl
+
+/-- For every response script (one step per input): the outputs are exactly one per input up to the first step that does
+not emit; `finish` — alone or with data — is refused with the RuntimeError "finish() is not allowed on exchange
+streams…" and ends the session; when every step emits, |outputs| = |inputs| and there is no terminal event. -/
+theorem C10_exchange (il : List Log) (steps : List Step) :
+    datasOf (Pipe.exchangeAll (logItems il) steps) = exchanged steps ∧
+    restOf (Pipe.exchangeAll (logItems il) steps) = exchangeEnd steps ∧
+    datasOf (Http.exchangeAll steps) = exchanged steps ∧
+    restOf (Http.exchangeAll steps) = exchangeEnd steps ∧
+    (AllEmit steps → (exchanged steps).length = steps.length ∧ exchangeEnd steps = []) ∧
+    (∀ pre s post, steps = pre ++ s :: post → AllEmit pre → (s.act = .finish ∨ ∃ b, s.act = .emitFinish b) →
+      (exchanged steps).length = pre.length ∧ exchangeEnd steps = [errEv finishOnExchangeExn]) := by
+  have hp := pipe_exchange_refines il steps
+  have hh := http_exchange_refines steps
+  have d : datasOf (Sem.lg il ++ Sem.exchange false steps) = exchanged steps := by
+    rw [Engine.Aux.datasOf_append, datasOf_lg, exchange_datas]; rfl
+  have r : restOf (Sem.lg il ++ Sem.exchange false steps) = exchangeEnd steps := by
+    rw [Engine.Aux.restOf_append, restOf_lg, exchange_rest]; rfl
+  refine ⟨by rw [hp]; exact d, by rw [hp]; exact r, ?_, ?_, allEmit_exchanged steps, ?_⟩
+  · have := congrArg Obs.datas hh; simp only [obs] at this; rw [this]; exact exchange_datas steps
+  · have := congrArg Obs.rest hh; simp only [obs] at this; rw [this]; exact exchange_rest steps
+  · intro pre s post he ha hs
+    rw [he]; exact finish_refused pre s post ha hs
+
+/-! ## Header -/
+
+/-- Socket family: a stream that declares a header and starts delivers it exactly once, at the open, before any data —
+whatever the script and whatever the client does afterwards -/
+theorem C10_header_pipe (env : Env) (m : Method) (h : Nat) (ops : List PipeM.Op)
+    (hh : m.header = some h) (hi : m.init = none) :
+    ∃ s0, (PipeM.openS m).2 = some s0 ∧
+      HeaderOnceFirst h ((PipeM.openS m).1 ++ (PipeM.run env m.prog s0 ops).2.flatten) := by
+  refine ⟨PipeM.st0 [] true, by simp [PipeM.openS, hh, hi], ?_⟩
+  refine ⟨lgEv m.initLogs, (PipeM.run env m.prog (PipeM.st0 [] true) ops).2.flatten, ?_, ?_, ?_⟩
+  · simp [PipeM.openS, hh, hi]
+  · exact logs_nodata _ (lgEv_logs _)
+  · exact run_nohdr env m.prog ops _
+
+/-- HTTP: the same — including the stream whose first producer step fails inside the `/init` turn (the session is kept
+and carries the header; the error follows on iteration) -/
+theorem C10_header_http (c : HttpM.Cfg) (m : Method) (h : Nat) (ops : List HttpM.Op)
+    (hh : m.header = some h) (hi : m.init = none) :
+    ∃ s0, (HttpM.openS c m).2 = some s0 ∧
+      HeaderOnceFirst h ((HttpM.openS c m).1 ++ (HttpM.run c m.prog s0 ops).2.flatten) := by
+  have hopen : HttpM.openS c m = (HttpM.openEvs m (Http.parseInit (HttpM.initBody c m).1),
+      some (HttpM.session c m (Http.parseInit (HttpM.initBody c m).1))) := by
+    unfold HttpM.openS
+    rw [hi]
+    simp only
+    split
+    · rename_i hx; rw [hh] at hx; cases hx
+    · rfl
+  refine ⟨_, by rw [hopen], ?_⟩
+  rw [hopen]
+  refine ⟨lgEv m.initLogs ++ (Http.parseInit (HttpM.initBody c m).1).evs,
+    (HttpM.run c m.prog (HttpM.session c m (Http.parseInit (HttpM.initBody c m).1)) ops).2.flatten, ?_, ?_, ?_⟩
+  · simp [HttpM.openEvs, hh]
+  · intro e he
+    rcases List.mem_append.1 he with he | he
+    · exact logs_nodata _ (lgEv_logs _) e he
+    · exact logs_nodata _ (parseInit_evs_logs _) e he
+  · apply run_nohdr_http
+    intro e he
+    exact parseInit_err _ e he
 
 /-! ## Cancel -/
 
